@@ -14,15 +14,29 @@ class Ctx:
         self.tier = tier
         self.fold = Folder(repo)
 
+    # What runs is the generated lexer/parser, what the rules read is the .g4 files: every use of a grammar first establishes that the
+    # generated tables are the tables of that grammar (engine.atn).  C16 reports the comparison itself (C16-R5) and sets this to False.
+    require_generated_tables_in_sync = True
+
+    def _grammar(self, name: str):  # type: ignore[no-untyped-def]
+        from .g4 import load_grammar
+        from .loader import AnalysisError
+        g = load_grammar(self.repo, name)
+        if self.require_generated_tables_in_sync:
+            from .atn import agreement
+            problems, _facts = agreement(self.repo, g, name)
+            if problems:
+                raise AnalysisError(f"the generated {name} lexer/parser are not the tables of the grammar files (regenerate them, or the .g4 file is not what runs): "
+                                    + "; ".join(problems[:3]))
+        return g
+
     @cached_property
     def grammar_exps(self):  # type: ignore[no-untyped-def]
-        from .g4 import load_grammar
-        return load_grammar(self.repo, "ExplorerScript")
+        return self._grammar("ExplorerScript")
 
     @cached_property
     def grammar_ssbs(self):  # type: ignore[no-untyped-def]
-        from .g4 import load_grammar
-        return load_grammar(self.repo, "SsbScript")
+        return self._grammar("SsbScript")
 
     @cached_property
     def callgraph(self):  # type: ignore[no-untyped-def]
